@@ -90,6 +90,10 @@ SECTIONS = [
    ('C15_weekday_month_conversions', 'weekday_month_conversions', 'all thirteen FromPrimitive / TryFrom conversions are plain functions in the model: a returned value is a Weekday / Month'),
    ('C15_weekday_month_from_str_total', 'weekday_month_from_str_total', ''),
  ]),
+ ("Rounding (C17): DurationRound for NaiveDateTime ([Proofs.C17.ndt_op m] is duration_trunc / duration_round_up / duration_round of Model/Round.v).  C17 states its theorems modulo the exactness of checked_add_signed / checked_sub_signed / timestamp_nanos_opt ([ndt_links]); the premise is discharged here from C02 and C03.  PARTIAL: non-leap date-times (C03's domain); every span, TimeDelta::MIN / MAX / zero included: failure is by value.  DurationRound for DateTime (repaired f2640c4): correspondence + judge", [
+   ('C15_ndt_links_nonleap', 'ndt_links_nonleap', ''),
+   ('C15_ndt_round_total_partial', 'ndt_round_total_partial', ''),
+ ]),
  ("Parsers", [
    ('C15_parse_from_rfc3339_total', 'parse_from_rfc3339_total', 'every well-formed UTF-8 string (C10)'),
    ('C15_parse_items_total_partial', 'parse_items_total', 'format::parse / parse_and_remainder with an explicit item list (C13).  PARTIAL: item lists without Fixed::RFC2822 (C11 owns that reader: C11_comment_total, C11_zone_scanner_total, C11_no_panic_on_grammar_partial; otherwise correspondence + judge)'),
